@@ -273,7 +273,8 @@ def bumpH (h : Bytes) (bs : Bytes) (d : Int) : RcMap → RcMap
     else (k, e) :: bumpH h bs d r
 
 def bump (H : Bytes → Bytes) (m : RcMap) (ev : Ev) : RcMap :=
-  bumpH (hash H ev.2) (enc H ev.2) (if ev.1 then 1 else -1) m
+  let bs := enc H ev.2           -- `n.Bytes()`; `n.Hash()` is the hash of these bytes
+  bumpH (H bs) bs (if ev.1 then 1 else -1) m
 
 def applyEvs (H : Bytes → Bytes) (m : RcMap) (evs : Evs) : RcMap := evs.foldl (bump H) m
 
